@@ -280,9 +280,9 @@ theorem parseComment_ok {d : TokenDef} (hw : wf d = true) {src : Str} {b e : Nat
     · injection h with h; injection h with h1 h2; subst h1 h2
       exact ⟨hb, Nat.le_refl _, rawText_of_ne (by simp [T.comment, T.minus]), rfl⟩
 
-/-- the quote loop stays inside the source, never exhausts a fuel of at least `len - e`, and never indexes out of range -/
-theorem quoteLoop_ok {src close : Str} (hc : 0 < close.length) : ∀ (fuel e : Nat), e ≤ src.length → src.length - e ≤ fuel →
-    ∃ e', quoteLoop src close fuel e = .ok e' ∧ e ≤ e' ∧ e' ≤ src.length
+/-- the quote loop stays inside the source and never exhausts a fuel of at least `len - e` -/
+theorem quoteLoop_ok {src close : Str} (hc : 0 < close.length) (body : Nat) : ∀ (fuel e : Nat), e ≤ src.length → src.length - e ≤ fuel →
+    ∃ e', quoteLoop src close body fuel e = .ok e' ∧ e ≤ e' ∧ e' ≤ src.length
   | fuel, e, hle, hf => by
     unfold quoteLoop
     split
@@ -296,14 +296,8 @@ theorem quoteLoop_ok {src close : Str} (hc : 0 < close.length) : ∀ (fuel e : N
         | some idx =>
           have hb := findFrom_bound hfind
           simp only []
-          have hprev : Nat.max e (idx - 1) < src.length := by
-            have : Nat.max e (idx - 1) ≤ idx := by
-              apply Nat.max_le.mpr; omega
-            omega
-          have hget : src[Nat.max e (idx - 1)]? = some (src[Nat.max e (idx - 1)]'hprev) := List.getElem?_eq_getElem hprev
-          simp only [charAt, hget]
           split
-          · obtain ⟨e', h1, h2, h3⟩ := quoteLoop_ok hc f (idx + close.length) hb.2 (by omega)
+          · obtain ⟨e', h1, h2, h3⟩ := quoteLoop_ok (src := src) hc body f (idx + 1) (by omega) (by omega)
             exact ⟨e', h1, by omega, h3⟩
           · exact ⟨_, rfl, by omega, hb.2⟩
     · exact ⟨e, rfl, Nat.le_refl _, hle⟩
@@ -318,7 +312,7 @@ theorem parseQuote_ok {d : TokenDef} (hw : wf d = true) {src : Str} {b e : Nat} 
     obtain ⟨hp, hs⟩ := firstOpen_ok hf
     have hlen := wf_quote hw hp
     have hbound := startsWithAt_bound hs
-    obtain ⟨e', hq, h1, h2⟩ := quoteLoop_ok (src := src) hlen.2 src.length (b + pair.1.length) hbound (by omega)
+    obtain ⟨e', hq, h1, h2⟩ := quoteLoop_ok (src := src) hlen.2 (b + pair.1.length) src.length (b + pair.1.length) hbound (by omega)
     simp only [bind, Except.bind, hq] at h
     split at h
     · cases h
@@ -587,7 +581,7 @@ theorem parseQuote_fuel {d : TokenDef} (hw : wf d = true) {src : Str} {b : Nat} 
     obtain ⟨hp, hs⟩ := firstOpen_ok hf
     have hlen := wf_quote hw hp
     have hbound := startsWithAt_bound hs
-    obtain ⟨e', hq, h1, h2⟩ := quoteLoop_ok (src := src) hlen.2 src.length (b + pair.1.length) hbound (by omega)
+    obtain ⟨e', hq, h1, h2⟩ := quoteLoop_ok (src := src) hlen.2 (b + pair.1.length) src.length (b + pair.1.length) hbound (by omega)
     simp only [bind, Except.bind, hq]
     split <;> intro h <;> cases h
 
@@ -1541,7 +1535,7 @@ theorem parser_total {d : TokenDef} (hw : wf d = true) (hwt : wfTotal d = true) 
         obtain ⟨hmem, hs⟩ := firstOpen_ok hp
         have hlen := wf_quote hw hmem
         have hbound := startsWithAt_bound hs
-        obtain ⟨e', hq, q1, q2⟩ := quoteLoop_ok (src := src) hlen.2 src.length (b + p.1.length) hbound (by omega)
+        obtain ⟨e', hq, q1, q2⟩ := quoteLoop_ok (src := src) hlen.2 (b + p.1.length) src.length (b + p.1.length) hbound (by omega)
         unfold parseQuote
         rw [hp]
         simp only [bind, Except.bind, hq]
